@@ -145,6 +145,8 @@ pub enum BadGlyphKind {
     PathConversion(PathConversionError),
     Anchor(BadAnchor),
     BadDeltas(DeltaError),
+    /// The glyph is part of, or refers into, a cycle of component references
+    ComponentCycle,
     FrontendSpecific(String),
 }
 
@@ -286,6 +288,7 @@ impl std::fmt::Display for BadGlyphKind {
             BadGlyphKind::NoAxisPosition(axis) => write!(f, "no position on '{axis}' axis"),
             BadGlyphKind::Anchor(e) => write!(f, "bad anchor: '{e}'"),
             BadGlyphKind::BadDeltas(e) => write!(f, "delta error: '{e}'"),
+            BadGlyphKind::ComponentCycle => f.write_str("component references form a cycle"),
             BadGlyphKind::FrontendSpecific(e) => write!(f, "{}", e),
         }
     }
